@@ -117,7 +117,7 @@ class ConverterFactory:
         if value is None:
             return None
 
-        if isinstance(value, list):
+        if isinstance(value, list) or type(value) is tuple:
             return " ".join(self.serialize(val, **kwargs) for val in value)
 
         instance = self.value_converter(value)
